@@ -59,6 +59,7 @@ func allScenarios(tier string) []scenario {
 		return 4
 	}
 	out := asyncScenarios(mb)
+	out = append(out, rendezvousScenarios(mb)...)
 	out = append(out, readonlyScenarios(th)...)
 	fb := 2
 	if th {
@@ -430,7 +431,9 @@ func main() {
 	c.Set("families", fam)
 	c.Set("traces_validated_against_impl", c.Evals())
 	if oneOutcome > 0 {
-		ev.Harness("C15", "%d multi-thread async scenarios produced a single outcome: the driver is vacuous", oneOutcome)
+		// not an error: an implementation may legitimately serialise its callbacks; but the number is in the
+		// evidence, because for such scenarios the enumeration of interleavings decided nothing
+		c.Cut(fmt.Sprintf("%d multi-thread async scenarios produced a single observable outcome (callbacks never overlapped)", oneOutcome))
 	}
 	// supplementary free-running race pass
 	raceBin := filepath.Join(filepath.Dir(self), "c15race")
